@@ -186,7 +186,9 @@ def rand_ops(rng, mode, force=None):
     ops = []
     want = force if force is not None else tuple(rng.random() < 0.4 for _ in range(4))
     if want[0]:
-        ops.append(("r", bits(rng.choice([0.5, 0.1, 1.0, 0.001, 1e-7, 0.25, 0.3333333333333333]))))
+        # any finite rate is the caller's business: zero, negative zero, negative, above one, subnormal, huge
+        ops.append(("r", bits(rng.choice([0.5, 0.1, 1.0, 0.001, 1e-7, 0.25, 0.3333333333333333, 0.0, -0.0, -0.5, -1.0, 1.5,
+                                          5e-324, 1.7976931348623157e308, 100.0]))))
         if rng.random() < 0.2:
             ops.append(("r", bits(rng.choice([0.75, 2.0]))))
     if want[1]:
